@@ -477,7 +477,7 @@ Lemma good_call id ck c l : call_ok ck = true ->
   good (call_error id ck c) l.
 Proof.
   intros Hok Hc Hs.
-  destruct ck as [k f| | |rt f|k|k|retry q| |code| | |n|n|k p2 n]; cbn [call_error].
+  destruct ck as [k f| | |rt f|k|k|retry q| |code| | |n|n|k p2|k p2 n]; cbn [call_error].
   - (* CkReq *)
     destruct k, f; cbn [call_ok] in Hok; try discriminate;
       cbn [uses_cause call_sentinel] in *;
@@ -517,6 +517,9 @@ Proof.
     + specialize (Hs eq_refl). subst l. apply good_wrap, good_sent.
     + specialize (Hc eq_refl). destruct (n =? 1); [apply good_wrap; exact Hc|].
       unfold ping_impl. cbn -[wrap_error]. apply good_wrap. exact Hc.
+  - (* CkRetryClosed *)
+    specialize (Hs eq_refl). subst l. cbn [call_sentinel call_error]. cbn [call_ok] in Hok.
+    destruct k, p2; cbn in Hok; try discriminate; split; reflexivity.
   - (* CkRetryRetx *)
     specialize (Hs eq_refl). subst l. cbn [call_sentinel call_error].
     cbn [call_ok] in Hok. apply andb_true_iff in Hok as [Hn Hk].
@@ -586,7 +589,7 @@ Theorem ctx_error_found id ck ce : ctx_call ck = true ->
 Proof.
   intros H. rewrite (errors_is_good _ (Some ce)).
   - cbn. rewrite sentinel_eqb_refl. reflexivity.
-  - destruct ck as [k f| | |rt f|k|k|retry q| |code| | |n|n|k p2 n]; cbn [ctx_call] in H; try discriminate.
+  - destruct ck as [k f| | |rt f|k|k|retry q| |code| | |n|n|k p2|k p2 n]; cbn [ctx_call] in H; try discriminate.
     + apply andb_true_iff in H as [H1 H2]. apply good_call; [exact H1 | intros _; apply good_sent |].
       destruct f; cbn in H2 |- *; discriminate.
     + destruct f; try discriminate. apply good_call; [reflexivity | intros _; apply good_sent | cbn; discriminate].
@@ -1129,6 +1132,83 @@ Proof.
     destruct f; cbn [script_of sc_w1 sc_s1 step_fail snd] in *; try contradiction; try discriminate; reflexivity.
   - rewrite (unsubscribe_one_step eid c nid ts _ Hc). unfold one_step.
     destruct f; cbn [script_of sc_w1 sc_s1 step_fail snd] in *; try contradiction; try discriminate; reflexivity.
+Qed.
+
+(* ---------- RequestTimeoutError if and only if a response timeout expired; Error() is total ---------- *)
+Theorem error_text_total e : lib_chain e = true -> error_panics e = false.
+Proof.
+  induction e; cbn [lib_chain error_panics]; intros H; try discriminate; try reflexivity;
+    rewrite (lib_chain_nonnil e H); apply IHe; exact H.
+Qed.
+
+Lemma as_rt_wrap id e : errors_as AsReqTimeout (wrap_error_impl id e) = errors_as AsReqTimeout e.
+Proof.
+  destruct (wrap_error_impl_cases id e) as [[E W]|[[E W]|[_ [N W]]]]; rewrite W; subst; reflexivity.
+Qed.
+
+Lemma as_rt_wrap_retry id e h : errors_as AsReqTimeout (wrap_with_retry id e h) = errors_as AsReqTimeout e.
+Proof.
+  unfold wrap_with_retry.
+  destruct (wrap_error_impl_cases (S id) e) as [[E W]|[[E W]|[_ [N W]]]]; rewrite W; subst; reflexivity.
+Qed.
+
+Lemma as_rt_call id ck c : call_ok ck = true ->
+  errors_as AsReqTimeout (call_error id ck c) = call_rt ck (errors_as AsReqTimeout c).
+Proof.
+  intros Hok.
+  destruct ck as [k f| | |rt f|k|k|retry q| |code| | |n|n|k p2|k p2 n]; cbn [call_error call_rt uses_cause].
+  - destruct k, f; cbn [call_ok] in Hok; try discriminate;
+      unfold req_error, ret_err, publish_impl, subscribe_impl, unsubscribe_impl, ping_impl, connect_impl, retry_publish2;
+      cbn -[wrap_with_retry wrap_error wrap_error_impl errors_as];
+      unfold wrap_error; rewrite ?as_rt_wrap_retry, ?as_rt_wrap; reflexivity.
+  - unfold wrap_error. rewrite as_rt_wrap. reflexivity.
+  - unfold wrap_error. rewrite !as_rt_wrap. reflexivity.
+  - destruct f; cbn [call_ok] in Hok; try discriminate; unfold ping_impl, wrap_error;
+      cbn -[wrap_error_impl errors_as]; rewrite ?as_rt_wrap; try reflexivity.
+    all: destruct rt; reflexivity.
+  - destruct k; cbn [call_ok] in Hok; try discriminate; reflexivity.
+  - reflexivity.
+  - destruct retry, q; reflexivity.
+  - reflexivity.
+  - reflexivity.
+  - reflexivity.
+  - reflexivity.
+  - destruct (n =? 0); [reflexivity|]. destruct (n =? 1); [reflexivity|]. destruct (n =? 2); [reflexivity|].
+    destruct (n =? 3); reflexivity.
+  - destruct (n =? 0) eqn:N0; cbn [negb andb]; [reflexivity|].
+    destruct (n =? 1); unfold wrap_error; [rewrite as_rt_wrap; reflexivity|].
+    unfold ping_impl. cbn -[wrap_error_impl errors_as]. unfold wrap_error. rewrite as_rt_wrap. reflexivity.
+  - destruct k, p2; cbn in Hok; try discriminate; reflexivity.
+  - cbn [call_ok] in Hok. apply andb_true_iff in Hok as [Hn Hk].
+    apply orb_true_iff in Hn as [Hn|Hn]; apply N.eqb_eq in Hn; subst n;
+      destruct k, p2; cbn in Hk; try discriminate; reflexivity.
+Qed.
+
+(* "identifiable as RequestTimeoutError" in both directions: for everything built from the real
+   constructors and the real calls, errors.As finds a RequestTimeoutError exactly when an expired
+   response timeout is in the chain *)
+Theorem rt_iff_expired d : shaped d = true -> errors_as AsReqTimeout (build d) = spec_has_rt d.
+Proof.
+  induction d; cbn [shaped]; intros H; try discriminate; cbn [build spec_has_rt].
+  - reflexivity.
+  - cbn [errors_as type_matches]. apply IHd. exact H.
+  - cbn [errors_as type_matches]. apply IHd. exact H.
+  - cbn [errors_as type_matches]. apply IHd. exact H.
+  - apply andb_true_iff in H as [H1 H2]. rewrite (as_rt_call _ _ _ H1).
+    destruct (uses_cause ck) eqn:U.
+    + rewrite (IHd H2). reflexivity.
+    + destruct ck as [k f| | |rt f|k|k|retry q| |code| | |n|n|k p2|k p2 n]; cbn [call_rt uses_cause] in *;
+        try rewrite U; reflexivity.
+Qed.
+
+(* the connection ends while a request of a RetryClient with ResponseTimeout waits for its
+   acknowledgement (its context's Err() is non-nil all the time): ErrClosedTransport, not a timeout *)
+Theorem closed_under_request_context id k p2 : call_ok (CkRetryClosed k p2) = true ->
+  let e := call_error id (CkRetryClosed k p2) ENil in
+  errors_is e (ESent SClosedTransport) = RTrue /\ errors_as AsReqTimeout e = false /\
+  implements_retry e = true /\ error_panics e = false.
+Proof.
+  intros Hok. destruct k, p2; cbn in Hok; try discriminate; repeat split; reflexivity.
 Qed.
 
 (* ---------- RequestTimeoutError on the retransmission path ---------- *)
